@@ -272,6 +272,78 @@ std::string roundTrip(const Case &c, std::string &observer, std::set<std::string
     return "";
 }
 
+// C14: indices whose little-endian bytes are all "interesting" (0xFF / 0x00 / mixed in every position)
+template <class G>
+std::string bigIndex(const Case &c, std::string &observer, std::set<std::string> &tags) {
+    typedef typename BT<G>::Label L;
+    static const unsigned table[] = {0, 1, 254, 255, 256, 257, 511, 512, 767, 1023, 4095, 4096, 65279, 65280, 65281, 65534, 65535, 65536, 65537, 65791, 66047, 70000};
+    const size_t T = sizeof(table) / sizeof(table[0]);
+    BModel<L> m;
+    m.directed = BT<G>::directed;
+    std::vector<std::pair<UPair, L>> recs;
+    size_t n = 0;
+    for (const Op &op : c.ops)
+        if (op.kind == "e") {
+            unsigned i = table[op.u(0) % T], j = table[op.u(1) % T];
+            UPair k = m.key(i, j);
+            if (m.e.count(k))
+                continue;
+            L v = Val<L>::mk(op.i(2));
+            m.e[k] = v;
+            recs.emplace_back(UPair(i, j), v);
+            n = std::max<size_t>(n, std::max(i, j) + 1);
+        }
+    m.n = n;
+    G g(n);
+    for (auto &r : recs)
+        g.addEdge(r.first.first, r.first.second, r.second);
+    FileGuard f1{scratchFile(".big")};
+    BT<G>::write(g, f1.p);
+    std::string bytes = readAll(f1.p), expect;
+    for (auto e : g.edges()) {
+        le32(expect, e.first);
+        le32(expect, e.second);
+        Val<L>::le(expect, m.e[m.key(e.first, e.second)]);
+    }
+    if (bytes != expect) {
+        observer = "file-bytes";
+        return "file bytes differ from LE32(src) LE32(dst) LE(label) (indices up to " + std::to_string(n) + ")";
+    }
+    G h = BT<G>::load(f1.p);
+    if (h.getSize() != n || h.getEdgeNumber() != m.e.size()) {
+        observer = "roundtrip-size";
+        return "reloaded graph has " + std::to_string(h.getSize()) + " vertices and " + std::to_string(h.getEdgeNumber()) + " edges, expected " + std::to_string(n) + " and " +
+               std::to_string(m.e.size());
+    }
+    std::set<unsigned> involved;
+    for (auto &r : recs) {
+        involved.insert(r.first.first);
+        involved.insert(r.first.second);
+    }
+    for (unsigned v : involved) {
+        std::multiset<unsigned> a(g.getOutNeighbours(v).begin(), g.getOutNeighbours(v).end()), b(h.getOutNeighbours(v).begin(), h.getOutNeighbours(v).end());
+        if (a != b) {
+            observer = "roundtrip-edges";
+            return "neighbours of vertex " + std::to_string(v) + " differ after the round trip";
+        }
+        if constexpr (!std::is_same<L, NoLabel>::value)
+            for (unsigned w : a) {
+                L x = g.getEdgeLabel(v, w), y = h.getEdgeLabel(v, w);
+                if (std::memcmp(&x, &y, sizeof(L)) != 0) {
+                    observer = "roundtrip-labels";
+                    return "label of (" + std::to_string(v) + "," + std::to_string(w) + ") differs after the round trip";
+                }
+            }
+    }
+    if (!(h == g)) {
+        observer = "roundtrip-equality";
+        return "the reloaded graph does not equal the original";
+    }
+    if (recs.size() >= 2)
+        tags.insert("big_indices_two_edges");
+    return "";
+}
+
 // C15: every cut offset of a valid file
 template <class G>
 std::string cuts(const Case &c, std::string &observer, std::set<std::string> &tags, unsigned long long &work) {
@@ -472,6 +544,8 @@ void run(const Case &c, verif_result *out) {
     try {
         if (mode == "cuts")
             r = cuts<G>(c, observer, tags, work);
+        else if (mode == "bigindex")
+            r = bigIndex<G>(c, observer, tags);
         else if (mode == "rawbin") {
             int verdict = 1;
             r = rawBin<G>(c, observer, tags, verdict);
@@ -498,7 +572,7 @@ void run(const Case &c, verif_result *out) {
         tg += t + " ";
     tg += "mode_" + mode;
     out->verdict = r.empty() ? 0 : 1;
-    out->nontrivial = r.empty() && (tags.count("multibyte_two_edges_loop") || tags.count("cut_inside_record") || tags.count("partial_last_record"));
+    out->nontrivial = r.empty() && (tags.count("multibyte_two_edges_loop") || tags.count("cut_inside_record") || tags.count("partial_last_record") || tags.count("big_indices_two_edges"));
     out->work = work;
     std::snprintf(out->tags, sizeof out->tags, "%s", tg.c_str());
     if (!r.empty()) {
